@@ -8,7 +8,7 @@
 From Coq Require Import List String NArith ZArith Bool.
 From Verif Require Import Base.Text Gen.GenPanicSites Model.Lexer Model.Literals Model.Analyzer Model.Decode
   Proofs.LexerTile Proofs.PanicInventory Proofs.LitProofs Proofs.AnalyzerProofs Proofs.Utf.
-From Verif Require Model.StParser Model.DeclParser Model.StInstance Proofs.StExprProofs Proofs.StStmtProofs Proofs.StInstanceProofs Proofs.DeclProofs Proofs.DeclInstanceProofs.
+From Verif Require Model.StParser Model.DeclParser Model.StInstance Proofs.StExprProofs Proofs.StStmtProofs Proofs.StInstanceProofs Proofs.DeclProofs Proofs.DeclInstanceProofs Proofs.LibProofs.
 From Verif Require Import Gen.GenTokens.
 Import ListNotations.
 
@@ -60,3 +60,8 @@ Theorem C04_declaration_parser_fuel : forall w00 fb w0 nm (bl : list (DeclProofs
   (StStmtProofs.absorbs token l = true -> w2 = []) ->
   StInstance.parse_fbd_tokens (w00 ++ fb :: w0 ++ nm :: DeclProofs.flat_wbs token bl ++ w1 ++ StStmtProofs.flat_l token l ++ w2 ++ en :: w3) <> StInstance.O2Fuel.
 Proof. exact DeclInstanceProofs.parse_fbd_fuel. Qed.
+
+Theorem C04_library_parser_fuel : forall (l : list LibProofs.swu) wend,
+  Forall LibProofs.wf_wu l -> StExprProofs.all_triv token StInstance.tok_class wend ->
+  StInstance.parse_lib_tokens (LibProofs.flat_lib l ++ wend) <> StInstance.O3Fuel.
+Proof. exact LibProofs.parse_lib_fuel. Qed.
